@@ -79,6 +79,7 @@ fn check_e1(check: &mut Check, flavours: Vec<adapt::Flavour>) {
   let w = e1::weights_for(&std::env::var("VERIF_WEIGHTS").unwrap_or_else(|_| ctx.property.clone()));
   let cases = std::env::var("VERIF_CASES").ok().and_then(|s| s.parse().ok()).unwrap_or(ctx.tier.pick(40_000u64, 2_000_000u64));
   let max_ops = ctx.tier.pick(60usize, 120usize);
+  vcore::set_current_engine("E1");
   let out = vcore::drive(&ctx, &check.findings, 1, cases, move || e1::scenario_strategy(flavours.clone(), w, max_ops), |s| e1::execute(s));
   check.absorb("E1", out);
 }
@@ -96,6 +97,7 @@ fn check_e2_scaled(check: &mut Check, flavours: Vec<adapt::Flavour>, scale: u64)
     Ok(f) => flavours.into_iter().filter(|x| x.name() == f).collect(),
     Err(_) => flavours,
   };
+  vcore::set_current_engine("E2");
   let out = vcore::drive(&ctx, &check.findings, 2, cases, move || e2::scenario_strategy(flavours.clone(), lw, max_ops), |s| e2::execute(s));
   check.absorb("E2", out);
 }
@@ -104,6 +106,7 @@ fn check_topic(check: &mut Check, scale: u64) {
   let ctx = check.ctx.clone();
   let cases = std::env::var("VERIF_CASES4").ok().and_then(|s| s.parse().ok()).unwrap_or(ctx.tier.pick(30_000u64, 1_500_000u64) / scale);
   let max_ops = ctx.tier.pick(50usize, 90usize);
+  vcore::set_current_engine("E1-topic");
   let out = vcore::drive(&ctx, &check.findings, 4, cases, move || topic::scenario_strategy(max_ops), |s| topic::execute(s));
   check.absorb("E1-topic", out);
 }
@@ -112,15 +115,14 @@ fn check_bcast(check: &mut Check, scale: u64) {
   let ctx = check.ctx.clone();
   let cases = std::env::var("VERIF_CASES3").ok().and_then(|s| s.parse().ok()).unwrap_or(ctx.tier.pick(30_000u64, 1_500_000u64) / scale);
   let max_ops = ctx.tier.pick(60usize, 100usize);
+  vcore::set_current_engine("E1-broadcast");
   let out = vcore::drive(&ctx, &check.findings, 3, cases, move || bcast::scenario_strategy(max_ops), |s| bcast::execute(s));
   check.absorb("E1-broadcast", out);
 }
 
 fn main() {
   let args: Vec<String> = std::env::args().collect();
-  if std::env::var("VERIF_DEBUG").is_err() {
-    std::panic::set_hook(Box::new(|_| {}));
-  }
+  vcore::install_abort_guard(std::env::var("VERIF_DEBUG").is_err());
   match args.get(1).map(|s| s.as_str()) {
     Some("replay") => {
       let r = vcore::read_replay(&args[2]);
@@ -182,6 +184,7 @@ fn main() {
           let ctx = check.ctx.clone();
           let cases = std::env::var("VERIF_CASES5").ok().and_then(|s| s.parse().ok()).unwrap_or(ctx.tier.pick(40_000u64, 2_000_000u64));
           let max_ops = ctx.tier.pick(40usize, 80usize);
+          vcore::set_current_engine("E2-locks");
           let out = vcore::drive(&ctx, &check.findings, 5, cases, move || locks2::scenario_strategy(max_ops), |s| locks2::execute(s));
           check.absorb("E2-locks", out);
           ("E2-locks: generated single-threaded histories of async / try acquisitions, releases, cancellations (before / after wake), re-polls with new wakers and reader streams on HybridMutex and HybridRwLock; non-trivial = an acquisition was attempted while a guard was held; distinct = hash of the scenario".into(), vec!["single-threaded executor owned by the harness".into()])
